@@ -274,9 +274,10 @@ Proof.
   { destruct (inj =? 2); [apply close_peer_cinv, advance_cinv|]; exact H. }
   set (s1 := if inj =? 2 then close_peer c (advance_to c s (s_now s + 1)) p else s) in *.
   destruct (negb acl); [exact H1|].
+  destruct (negb (connected s1 p)); [exact H1|].
   pose proof (c_reserve_cinv c s1 p (addr_of c p k) (s_now s1) (s_now s1 + c_ttl c) _ _ H1) as H2.
   destruct (c_reserve c s1 p (addr_of c p k) (s_now s1) (s_now s1 + c_ttl c)) as [s2 ok]. cbn [fst] in H2.
-  destruct (negb ok); [exact H2|]. destruct (inj =? 2); exact H2.
+  destruct (negb ok); exact H2.
 Qed.
 
 (* ---- handleConnect ------------------------------------------------------------------- *)
